@@ -715,8 +715,17 @@ def b_c03(tier):
                 make(badname); check(False, "an illegal name was accepted", container=cname, name=badname)
             except (ValueError, DuplicateName):
                 N[0] += 1
+    # a name that IS another member's id (kept-id copies of a block that is named after its id): the name retrieves its own entity
+    g2 = newfile("ids.nix"); anon = f.create_block("", "t"); nm = anon.name
+    g2.create_block(name="backup", copy_from=anon, keep_copy_id=True); g2.create_block(copy_from=anon, keep_copy_id=True)
+    check(g2.blocks[nm].name == nm, "lookup by a name that is also another member's id returned the other member", got=g2.blocks[nm].name)
+    check(nm in g2.blocks and "backup" in g2.blocks and len(g2.blocks) == 2, "membership after kept-id copies")
+    del g2.blocks[nm]
+    check([b.name for b in g2.blocks] == ["backup"], "deleting by a name that is also another member's id removed the wrong member",
+          left=[b.name for b in g2.blocks])
+    g2.close()
     f.close()
-    return "7 container kinds x one history of 17 create / lookup / delete / re-create steps on ONE live container object over 9 legal names (uuid-like, leading / trailing blanks, non-ASCII, long), all lookups after every step; illegal names"
+    return "7 container kinds x one history of 17 create / lookup / delete / re-create steps on ONE live container object over 9 legal names (uuid-like, leading / trailing blanks, non-ASCII, long), all lookups after every step; illegal names; a name equal to another member's id"
 
 
 def b_c12(tier):
@@ -791,7 +800,174 @@ def b_c12(tier):
     return "one sample file x %d refused calls (duplicate / illegal names, empty type, wrong or inconsistent types, shape mismatches, foreign / wrong-kind objects, invalid link index, out-of-range index, copies onto existing names): canonical walk before = after" % len(calls)
 
 
-BATTERIES = {"c02": b_c02, "c13": b_c13, "c08": b_c08, "c16": b_c16, "c05": b_c05, "c04": b_c04, "c03": b_c03, "c12": b_c12}
+# ------------------------------------------------------------------------------------------------------------------
+def b_c20(tier):
+    """copies: complete, independent, internal links point into the copy, id policy, names, refusals"""
+    import nixio
+
+    def norm(w, drop_ids):
+        """walk with ids replaced by the entity's name path (so that a fresh-id copy can be compared with its source)"""
+        idmap = {}
+
+        def collect(x, path):
+            if isinstance(x, dict):
+                if "id" in x and "name" in x:
+                    idmap[x["id"]] = path + "/" + str(x["name"])
+                for k, v in x.items():
+                    collect(v, path + "/" + (str(x.get("name")) if "name" in x else k))
+            elif isinstance(x, list):
+                for v in x:
+                    collect(v, path)
+        collect(w, "")
+
+        def rep(x):
+            if isinstance(x, dict):
+                # (a metadata link leaves the copied subtree: only its presence is compared)
+                return {k: ("#" if k in ("id", "created") and drop_ids else bool(v) if k == "meta" and drop_ids else rep(v))
+                        for k, v in x.items()}
+            if isinstance(x, list):
+                return [rep(v) for v in x]
+            if isinstance(x, str) and x in idmap and drop_ids:
+                return "@" + idmap[x].split("/", 3)[-1]
+            return x
+        return rep(w)
+    for keep in (True, False):
+        for newname in (None, "copy"):
+            for cross in (True, False):
+                src = sample_file(newfile("src.nix")); dst = newfile("dst.nix") if cross else src
+                sb = src.blocks[0]
+                if not cross and newname is None:
+                    try:
+                        dst.create_block(copy_from=sb, keep_copy_id=keep)
+                        check(False, "copying onto an existing name was accepted")
+                    except NameError:
+                        N[0] += 1
+                    src.close(); continue
+                def src_block():
+                    return [x for x in walk_file(src)["blocks"] if x["name"] == sb.name][0]
+                before_src = src_block()
+                cb = dst.create_block(name=newname or "", copy_from=sb, keep_copy_id=keep) if newname else dst.create_block(copy_from=sb, keep_copy_id=keep)
+                want_name = newname or sb.name
+                check(cb.name == want_name, "the handle returned by the copy does not denote the copy", returned=cb.name, expected=want_name)
+                wsrc = [x for x in walk_file(src)["blocks"] if x["name"] == sb.name][0]
+                wcp = [x for x in walk_file(dst)["blocks"] if x["name"] == want_name][0]
+                a, bb = norm(dict(wsrc, name="X", meta=None), True), norm(dict(wcp, name="X", meta=None), True)
+                r = diff(a, bb)
+                check(r is None, "the copy does not have the same content / internal link structure as the source", keep_id=keep,
+                      cross_file=cross, where=r)
+                src_ids = {v for v in _ids(wsrc)}; cp_ids = {v for v in _ids(wcp)}
+                if keep:
+                    check(src_ids == cp_ids, "keep_id=True did not keep the ids", missing=sorted(src_ids - cp_ids)[:3])
+                else:
+                    check(not (src_ids & cp_ids), "keep_id=False left ids shared with the source", shared=sorted(src_ids & cp_ids)[:3])
+                    if cross:
+                        linked = {x for k in ("arrays", "tags", "mtags", "groups", "sources") for e in wcp[k] for x in _links(e)}
+                        inside = {e["id"] for k in ("arrays", "tags", "mtags", "groups") for e in wcp[k]} | {i for s_ in wcp["sources"] for i in _ids(s_)}
+                        check(linked <= inside, "links inside the copy point outside the copy", stray=sorted(linked - inside)[:3])
+                # independence: mutate the copy, the source walk must not change (and vice versa)
+                cb.data_arrays["same"].label = "changed-in-copy"; cb.data_arrays["ints"][0] = 99
+                check(diff(before_src, src_block()) is None,
+                      "a change made to the copy is visible in the source", keep_id=keep, cross_file=cross,
+                      where=diff(before_src, src_block()))
+                # ... deleting something inside the copy, and the copy itself, leaves the source as it was
+                before_src = src_block()
+                del cb.data_arrays["ints"]
+                check(diff(before_src, src_block()) is None, "deleting an array of the copy changed the source", keep_id=keep,
+                      cross_file=cross, where=diff(before_src, src_block()))
+                del dst.blocks[want_name]
+                check(sb.name in src.blocks and diff(before_src, src_block()) is None, "deleting the copy changed / removed the source",
+                      keep_id=keep, cross_file=cross, source_blocks=[b.name for b in src.blocks])
+                if cross:
+                    dst.close()
+                src.close()
+    # the other direction: deleting the source leaves the copy complete
+    for keep in (True, False):
+        f = sample_file(newfile("d.nix")); sb = f.blocks[0]; cb = f.create_block(name="cp", copy_from=sb, keep_copy_id=keep)
+        w0 = [x for x in walk_file(f)["blocks"] if x["name"] == "cp"][0]
+        del sb.data_arrays["same"]; del f.blocks[sb.name]
+        w1 = [x for x in walk_file(f)["blocks"] if x["name"] == "cp"]
+        check(len(w1) == 1 and diff(w0, w1[0]) is None, "deleting the source (or one of its arrays) changed the copy", keep_id=keep,
+              where=diff(w0, w1[0]) if w1 else "copy gone")
+        sec = f.sections["sess"]; cs = f.copy_section(sec, keep_id=keep, name="cpsec")
+        n0 = [p.name for p in sec.props]; del f.sections["cpsec"]
+        check("sess" in f.sections and [p.name for p in f.sections["sess"].props] == n0 and len(f.sections["sess"].sections) == len(sec.sections),
+              "deleting a copied section removed / changed the source section", keep_id=keep, sections=[x.name for x in f.sections])
+        f.close()
+    # names that look like ids: the existing-name test is about names
+    import uuid
+    src = newfile("u.nix"); dst = newfile("ud.nix")
+    ub = src.create_block("", "t"); un = ub.name; ub.create_data_array("a", "t", data=[1, 2])     # (an unnamed block is named after its id)
+    try:
+        c1 = dst.create_block(name="backup", copy_from=ub, keep_copy_id=True)
+        c2 = dst.create_block(copy_from=ub, keep_copy_id=True)
+        check(c1.name == "backup" and c2.name == un and len(dst.blocks) == 2, "copies of an id-named block under two names are not both there",
+              names=[b.name for b in dst.blocks])
+    except Exception as e:
+        check(False, "a legal copy (no block of that NAME at the destination) was refused", name=un, error=repr(e))
+    try:
+        dst.create_block(copy_from=ub, keep_copy_id=False); check(False, "copying onto an existing (id-like) name was accepted")
+    except NameError:
+        N[0] += 1
+    src.close(); dst.close()
+    # sections and properties
+    for keep in (True, False):
+        for children in (True, False):
+            f = sample_file(newfile()); sec = f.sections["sess"]; dest = f.sections["other"]
+            for where, call in (("file", lambda nm: f.copy_section(sec, children=children, keep_id=keep, name=nm)),
+                                ("section", lambda nm: dest.copy_section(sec, children=children, keep_id=keep, name=nm))):
+                try:
+                    c = call("cp")
+                except Exception as e:
+                    check(False, "a legal section copy was refused", into=where, children=children, keep_id=keep, error=repr(e)); continue
+                check(c.name == "cp", "the handle returned by copy_section does not denote the copy", returned=c.name)
+                check([p.name for p in c.props] == [p.name for p in sec.props] and
+                      [tuple(p.values) for p in c.props] == [tuple(p.values) for p in sec.props],
+                      "the copied section does not have the source's properties", into=where, children=children)
+                check((len(c.sections) == len(sec.sections)) == children or len(sec.sections) == 0,
+                      "recursive / non-recursive copy has the wrong children", into=where, children=children, got=len(c.sections))
+                ids_s = {sec.id} | {p.id for p in sec.props}; ids_c = {c.id} | {p.id for p in c.props}
+                check((ids_s == ids_c) if keep else not (ids_s & ids_c), "the id policy was not applied to the section and its properties",
+                      keep_id=keep, into=where, children=children)
+                try:
+                    call("cp"); check(False, "copying onto an existing name was accepted", into=where)
+                except NameError:
+                    N[0] += 1
+            p = dest.create_property(copy_from=sec.props["n"], keep_copy_id=keep, name="pcopy") if True else None
+            check(p.name == "pcopy" and tuple(p.values) == tuple(sec.props["n"].values) and ((p.id == sec.props["n"].id) == keep),
+                  "a copied property is not a faithful copy under the requested id policy", keep_id=keep, name=p.name)
+            f.close()
+    return "block copies: {keep, fresh ids} x {default, new name} x {same file, other file}; section copies into file / section x {recursive, flat} x id policy; property copies: content, internal links, id policy, returned handle, independence, existing names"
+
+
+def _ids(w):
+    out = []
+    if isinstance(w, dict):
+        if "id" in w and isinstance(w["id"], str):
+            out.append(w["id"])
+        for v in w.values():
+            out.extend(_ids(v))
+    elif isinstance(w, list):
+        for v in w:
+            out.extend(_ids(v))
+    return out
+
+
+def _links(e):
+    out = []
+    for k in ("refs", "sources", "arrays", "tags", "mtags"):
+        v = e.get(k)
+        if isinstance(v, list):
+            out.extend(x for x in v if isinstance(x, str))
+    for k in ("positions", "extents"):
+        if isinstance(e.get(k), str) and not e[k].startswith("!"):
+            out.append(e[k])
+    for ft in e.get("features", []) or []:
+        if isinstance(ft.get("data"), str) and not ft["data"].startswith("!"):
+            out.append(ft["data"])
+    return out
+
+
+BATTERIES = {"c02": b_c02, "c13": b_c13, "c08": b_c08, "c16": b_c16, "c05": b_c05, "c04": b_c04, "c03": b_c03, "c12": b_c12, "c20": b_c20}
 
 
 def main():
